@@ -141,6 +141,10 @@ var c14Templates = []string{
 	"xs[?@ > a]", "xs[?@ == a]", "xs[?@ != a]", "rs[?k >= a].id", "length(xs[?@ < b])", "group_by(rs, &to_string(k == a))", "map(&(@ * `2`), xs)", "map(&(@ + a), xs)", "zip(xs, xs)[0][0] == xs[0]",
 	"find_first('abcabc', 'c', i)", "find_first('abcabc', 'c', i, j)", "find_last('abcabc', 'c', i)", "find_last('abcabc', 'b', i, j)", "pad_left('x', i)", "pad_right('x', i, '-')", "pad_left('x', f)", "split('a,b,c', ',', i)", "split('a,b,c', ',', f)", "replace('aaa', 'a', 'b', i)", "replace('aaa', 'a', 'b', f)", "find_first('abc', 'c', f)",
 	"let $v = a in [$v, $v + b]", "sort(xs)[0] == min(xs)", "max(xs) - min(xs)", "xs[*] | sum(@) == sum(xs)", "merge({k: a}, {k: b}).k", "[a, b, c] | sort(@)", "sort_by(rs, &(k * `-1`))[*].id", "sort_by(rs, &abs(k))[*].id",
+	// the same constructs re-entered while an outer one is in progress (key expressions that sort,
+	// comparisons evaluated per element with changing operands)
+	"sort_by(rs, &sort([k, k])[0])[*].id", "sort_by(rs, &sort_by([@, @], &k)[0].k)[*].id", "sort_by(rs, &max([k, a]))[*].id", "sort_by(rs, &min_by([@], &k).k)[*].id", "max_by(rs, &sort([k, b])[1]).id", "min_by(rs, &sort_by([@, @], &k)[1].k).id",
+	"sort(map(&sort([@, a])[0], xs))", "map(&sort([@, a, b]), xs)", "xs[*].[@ == a, @ < b, @ >= c]", "xs[*].[let $x = @ in $.xs[*].[@ == $x, @ < $x]]", "rs[*].[let $k = k in $.rs[?k == $k].id]", "sort_by(rs, &sum([k, sort([k, a])[0]]))[*].id",
 }
 
 func c14Run(c *Ctx, idx int) {
